@@ -2,6 +2,7 @@ package j5schema
 
 import (
 	"fmt"
+	"sync"
 
 	"github.com/pentops/j5/gen/j5/ext/v1/ext_j5pb"
 	"google.golang.org/protobuf/proto"
@@ -10,6 +11,9 @@ import (
 
 // SchemaCache acts like PackageSet, but builds schemas on demand from reflection.
 type SchemaCache struct {
+	// mu guards packages and everything reachable from it while a schema is
+	// being built; built schemas are immutable.
+	mu       sync.Mutex
 	packages map[string]*Package
 }
 
@@ -21,6 +25,9 @@ func NewSchemaCache() *SchemaCache {
 
 // Schema returns the J5 schema for the given message descriptor.
 func (sc *SchemaCache) Schema(src protoreflect.MessageDescriptor) (RootSchema, error) {
+	sc.mu.Lock()
+	defer sc.mu.Unlock()
+
 	packageName, nameInPackage := splitDescriptorName(src)
 	schemaPackage := sc.referencePackage(packageName)
 	if built, ok := schemaPackage.Schemas[nameInPackage]; ok {
